@@ -145,6 +145,8 @@ def run(ck, facts, tier):
         except Unsupported as e:
             ck.fail(r4, nm, "rule could not be established (%s)" % e)
     carry_rule(ck, facts, hk)
+    from rules import pywrap
+    pywrap.run_calendar_wrappers(ck, facts)          # what a Python user calls is the wrapper: it must hand its arguments to the core method unchanged
     ck.not_decided += ["that chrono's month() lies in 1..=12 and that |months| stays below i32::MAX (abs() of i32::MIN) — contracts of the inputs, assumed by R08.5",
                        "Gregorian validity itself (delegated to chrono::NaiveDate::from_ymd_opt)"]
     ck.trusted += ["chrono::NaiveDate::from_ymd_opt validity", "lib/cel.py"]
